@@ -36,14 +36,15 @@ REQUIRED_THEOREMS = ["Clikit.Props.C16." + n for n in (
     "step_bounds", "bar_width", "percent_exact", "throttle", "throttle_spacing", "max_always_draws",
     "finish_final", "finish_final_partial", "finish_final_full_fails", "ansi_line_latest", "plain_own_line",
     "quiet_nothing")]
-RULE = ("exhaustive: every sequence up to length L (quick 4, thorough 6) over a pool of public calls with clock "
-        "advances (start, advance(1) after 0 / 1/64 / 1/16 / 1/4 / 2 s, advance(3), set_progress(max), display, "
-        "clear, finish, set_message) x {ANSI, plain, section} x min interval {0, 1/8 s} x maximum {0, 3}; random: "
+RULE = ("exhaustive small scope: every call sequence up to length 4 over a pool of 8 (quick) / 11 (thorough) public "
+        "calls with clock advances (start, advance(1) after 0 / 1/64 / 1/4 s [/ 2 s], advance(3) after 1/16 s, "
+        "set_progress(max), display, clear, finish, set_message), thorough also lengths 5-6 over a 6-call pool and "
+        "7-8 over a 4-call pool, x {ANSI, plain, section} x min interval {0, 1/8 s} x maximum {0, 3}; random: "
         "histories up to length 60 over maxima {0,1,3,10,50,200}, bar widths 1..40, default formats at the four "
         "verbosities, custom tag-free formats (also multi-line, unknown placeholders, width specs), messages of "
         "varying length, clock advances {0, 1/64, 1/16, 1/4, 2 s} x ANSI/plain/section/plain-section x quiet; a "
-        "case is non-trivial when at least one frame was written; distinct = distinct (kind, draw/skip pattern, "
-        "frame-length pattern)")
+        "case is non-trivial when at least one frame was written; distinct = distinct (kind, min interval, "
+        "draw/skip/error pattern, bytes written)")
 TRUSTED_BASE = [
     "Lean 4.33 kernel; axioms propext, Classical.choice, Quot.sound only (audited per theorem on every run)",
     "lean/Clikit/Model/Progress.lean: hand-written model of progress_bar.py, utils/time.py and the single-section "
@@ -120,31 +121,38 @@ def _pool(mx, tier):
     return pool
 
 
+CONFIGS = [(kind, min_ticks, mx) for kind in ("ansi", "plain", "section") for min_ticks in (0, 8) for mx in (0, 3)]
+
+
+def _product_cases(configs, pool_of, lengths):
+    for kind, min_ticks, mx in configs:
+        pool = pool_of(mx)
+        for n in lengths:
+            for seq in itertools.product(pool, repeat=n):
+                yield _case(kind=kind, min_ticks=min_ticks, max=mx, message="msg", ops=[dict(o) for o in seq])
+
+
+def _core_pool(mx):
+    return [_op("start"), _op("advance", 1, 0), _op("advance", 1, 16), _op("set_progress", mx or 3, 0),
+            _op("display"), _op("finish")]
+
+
+def _tiny_pool(mx):
+    return [_op("start"), _op("advance", 1, 0), _op("advance", 1, 16), _op("finish")]
+
+
 def _exhaustive_cases(tier):
-    depth = 4 if tier == "quick" else 6
-    configs = []
-    for kind in ("ansi", "plain", "section"):
-        for min_ticks in (0, 8):
-            for mx in (0, 3):
-                configs.append((kind, min_ticks, mx))
-    if tier == "thorough":
-        # depth 6 over 11 ops would be 1.9 M sequences per configuration: the long sequences use the core pool
-        for kind, min_ticks, mx in configs:
-            pool = _pool(mx, "thorough")
-            for n in range(0, 5):
-                for seq in itertools.product(pool, repeat=n):
-                    yield _case(kind=kind, min_ticks=min_ticks, max=mx, message="msg", ops=[dict(o) for o in seq])
-            core = [_op("start"), _op("advance", 1, 0), _op("advance", 1, 16), _op("set_progress", mx or 3, 0),
-                    _op("display"), _op("finish")]
-            for n in (5, 6):
-                for seq in itertools.product(core, repeat=n):
-                    yield _case(kind=kind, min_ticks=min_ticks, max=mx, message="msg", ops=[dict(o) for o in seq])
-    else:
-        for kind, min_ticks, mx in configs:
-            pool = _pool(mx, "quick")
-            for n in range(0, depth + 1):
-                for seq in itertools.product(pool, repeat=n):
-                    yield _case(kind=kind, min_ticks=min_ticks, max=mx, message="msg", ops=[dict(o) for o in seq])
+    """quick: every sequence up to length 4 over the 8-call pool; thorough: up to length 4 over the 11-call
+    pool, lengths 5-6 over the 6-call core pool (both for all 12 configurations)"""
+    if tier == "quick":
+        return _product_cases(CONFIGS, lambda mx: _pool(mx, "quick"), range(0, 5))
+    return itertools.chain(_product_cases(CONFIGS, lambda mx: _pool(mx, "thorough"), range(0, 5)),
+                           _product_cases(CONFIGS, _core_pool, (5, 6)))
+
+
+def _long_exhaustive_cases():
+    """thorough only: lengths 7 and 8 over the 4-call pool, throttling configurations"""
+    return _product_cases([c for c in CONFIGS if c[1] == 8], _tiny_pool, (7, 8))
 
 
 def _rand_message(rng):
@@ -226,9 +234,12 @@ def _random_case(rng, tier):
 def generate(tier, rng):
     for c in _exhaustive_cases(tier):
         yield c
-    n = 2500 if tier == "quick" else 40000
+    n = 10000 if tier == "quick" else 40000
     for _ in range(n):
         yield _random_case(rng, tier)
+    if tier == "thorough":
+        for c in _long_exhaustive_cases():
+            yield c
 
 
 def exhaustive(tier):
@@ -634,8 +645,9 @@ def nontrivial_key(case, obs):
     pat = _pattern(obs)
     if "D" not in pat:
         return None
-    lens = tuple(len("".join(e["w"])) for e in obs["events"])
-    return "%s|%s|%s|%d" % (case["kind"], pat, case["min_ticks"], hash(lens) & 0xffffff)
+    import zlib
+    data = "\x00".join("\x01".join(e["w"]) for e in obs["events"]).encode("utf-8")
+    return "%s|%s|%s|%08x" % (case["kind"], pat, case["min_ticks"], zlib.crc32(data))
 
 
 def bucket(case, obs):
